@@ -70,6 +70,11 @@ impl Clone for Xfn { #[verifier::external_body] fn clone(&self) -> (r: Self) ens
 impl Clone for CellRef { #[verifier::external_body] fn clone(&self) -> (r: Self) ensures r == *self { unimplemented!() } }
 impl Copy for CellRef {}
 impl Clone for Cell { #[verifier::external_body] fn clone(&self) -> (r: Self) ensures r == *self { unimplemented!() } }
+//@type src/cell.rs const ZERO
+//@type src/cell.rs const ONE
+//@type src/cell.rs const NIL
+//@type src/cell.rs const TRUE
+//@type src/cell.rs const FALSE
 impl CellRef {
 //@use cell.fns CellRef::index
 //@use cell.fns CellRef::heap_ref
